@@ -2,7 +2,8 @@
    Statements only; proofs are in coq/Proofs/ToCsv*.v.  V_fix is the code after the repairs
    work/C18/fix-F-C18{a,b,c,d,g}.diff; V_orig the code before them (refutation theorems). *)
 From Coq Require Import ZArith List Bool.
-From EV Require Import Res Arr ToCsv ToCsvSpec ToCsvParse ToCsvLoop ToCsvTop ToCsvRound ToCsvWriter.
+From EV Require Import Res Arr ToCsv ToCsvSpec ToCsvParse ToCsvLoop ToCsvTop ToCsvRound ToCsvWriter
+  ToCsvHist ToCsvHistSpec ToCsvHistP ToCsvFast ToCsvFastP.
 Import ListNotations.
 Open Scope Z_scope.
 
@@ -151,3 +152,56 @@ Proof.
   split; [vm_compute; reflexivity|]. vm_compute. discriminate.
 Qed.
 Print Assumptions to_csv_orig_foreign_filter_refuted.
+
+(* ---- added by SC18 (strengthening after seeded round 2) ------------------------------------- *)
+
+(* 8. histories (Model/ToCsvHist.v): several exports of one dataframe object to one destination,
+      the caller's column_filter list objects reused, the dataframe edited between exports.
+      With the repaired code (copies = true) a history is a sequence of independent calls: every
+      call writes what the single-call specification demands of the arguments as the caller wrote
+      them and of the frame as it is then; a failing call leaves the destination untouched. *)
+Theorem to_csv_history_correct : forall st calls file,
+  run_hist true st file calls = spec_hist st file calls.
+Proof. exact ToCsvHistP.history_correct. Qed.
+Print Assumptions to_csv_history_correct.
+
+Theorem to_csv_history_nth : forall st calls file k c,
+  nth_error calls k = Some c -> 0 < c_chunk c -> cf_valid (c_fr c) (resolve st (c_cf c)) = true ->
+  let out := concat (map fix_line (spec_table (c_fr c) (c_rf c) (resolve st (c_cf c)))) in
+  nth_error (run_hist true st file calls) k = Some (Ok out, Some out).
+Proof. exact ToCsvHistP.history_nth. Qed.
+Print Assumptions to_csv_history_nth.
+
+Example to_csv_history_nth_hyp :
+  nth_error j_calls 1 = Some (mkcall j_frame RF_none (CA_ref 0) 2) /\
+  cf_valid j_frame (resolve j_store (CA_ref 0)) = true /\
+  nth_error (run_hist true j_store None j_calls) 1
+  = Some (Ok [97; 44; 102; 10; 49; 44; 84; 10; 50; 44; 70; 10; 51; 44; 84; 10],
+          Some [97; 44; 102; 10; 49; 44; 84; 10; 50; 44; 70; 10; 51; 44; 84; 10]).
+Proof. vm_compute. repeat split; reflexivity. Qed.
+
+Theorem to_csv_history_failed_call_keeps_file : forall st c t file,
+  (c_chunk c <= 0 \/ cf_valid (c_fr c) (resolve st (c_cf c)) = false) ->
+  hd_error (run_hist true st file (c :: t)) = Some (Raise E_ValueError, file).
+Proof. exact ToCsvHistP.history_failed_call_keeps_file. Qed.
+Print Assumptions to_csv_history_failed_call_keeps_file.
+
+(* F-C18j: the code that passes the caller's list to list.remove (copies = false): the second export
+   through the same list object lacks the column the first call removed *)
+Theorem to_csv_history_aliasing_refuted :
+  run_hist false j_store None j_calls <> spec_hist j_store None j_calls
+  /\ run_hist true j_store None j_calls = spec_hist j_store None j_calls.
+Proof. exact ToCsvHistP.history_aliasing_refuted. Qed.
+Print Assumptions to_csv_history_aliasing_refuted.
+
+(* 8b. closed form of a single call; the extracted entry evaluates frames with more than 4096 rows
+       through it (the statement-level model indexes the filter list per row, quadratic) *)
+Theorem to_csv_closed_form : forall fr rf cf chunk,
+  to_csv (to_csv_fuel fr chunk) V_fix fr rf cf chunk = to_csv_closed fr rf cf chunk.
+Proof. exact ToCsvHistP.closed_form. Qed.
+Print Assumptions to_csv_closed_form.
+
+(* 9. the linear-time parser evaluated by the extracted entry is the reference parser *)
+Theorem csv_parse_fast_eq : forall file, csv_parse_f file = csv_parse file.
+Proof. exact ToCsvFastP.csv_parse_f_eq. Qed.
+Print Assumptions csv_parse_fast_eq.
